@@ -1503,6 +1503,36 @@ MODULAR_CORPUS = [
 
 
 # ---------------------------------------------------------------------------------------------
+def search_update_action(ck: Check) -> None:
+    """the function-level correspondence broke on the update-action list (same order of models, other list of models that get a
+    forward-reference resolution call): embed each such graph into a document (allOf/$ref for bases, $ref properties for
+    members; dangling references and self-bases dropped), in the disagreeing input order and its reverse, and apply the
+    property's own oracle to the module the real generate() writes for pydantic v2 / v1-style output"""
+    camp = ck.campaign("search: graphs on which the update-action list differs, embedded into documents (pydantic v2, v1-style)")
+    at(ck, camp)
+    seen, tried = set(), 0
+    for d in ck.disagreements:
+        inp, m, r = d.input, d.model, d.impl
+        if not (isinstance(inp, dict) and "graph" in inp and isinstance(m, (tuple, list)) and isinstance(r, (tuple, list)) and len(m) == 4 and len(r) == 4):
+            continue
+        if not (m[0] == r[0] == "ok" and list(m[2]) == list(r[2]) and list(m[3]) != list(r[3])):
+            continue
+        g = clean([dict(n, bases=[b for b in n["bases"] if b < EXT], members=[x for x in n["members"] if x < EXT]) for n in inp["graph"]])
+        if len({n["id"] for n in g}) != len(g) or len(g) > 12 or base_cycle(g):
+            continue
+        for order in (g, list(reversed(g))):
+            if graph_key(order) in seen:
+                continue
+            seen.add(graph_key(order))
+            for kind in E2E_KINDS[:2]:
+                e2e_case(ck, camp, [dict(n) for n in order], kind, {})
+                if ck.failures:
+                    return
+        tried += 1
+        if tried >= 60:
+            return
+
+
 def search_e2e(ck: Check) -> None:
     """a theorem or the correspondence broke: look for an input on which the property's oracle fails"""
     camp = ck.campaign("search: disagreeing graphs and all small graphs end-to-end")
@@ -1626,6 +1656,7 @@ def run(ck: Check) -> None:
     guarded(ck, campaign_e2e_post, 120 if quick else 900)
     guarded(ck, campaign_e2e_deep, 10 if quick else 60)
     guarded(ck, campaign_e2e_modular, 80 if quick else 400)
+    ck.search_hooks.append(search_update_action)
     ck.search_hooks.append(c11_dups.search_dups)
     ck.search_hooks.append(search_e2e)
     known_findings(ck)
